@@ -18,10 +18,11 @@ RULE = (
     "distinct by construction, generated ones are de-duplicated by a 64-bit hash of the case."
 )
 ASSUMPTIONS = [
+    "the traversal of a subtree is defined by .children alone: one node class (ShadowMRO) inherits unrelated class attributes named is_leaf/depth/height/size/... from a base listed before NodeMixin, and is iterated like any other",
     "reference orders are written from the definitions (recursion for pre/post order, explicit queue for level order) and use only .children",
     "depth of generated trees stays below Python's recursion limit (<= 60 nodes)",
 ]
-ENUM_CLASSES = ["Node", "SlotLM", "EqNode", "LenNode", "ListNode", "TupleNode"]
+ENUM_CLASSES = ["Node", "SlotLM", "EqNode", "LenNode", "ListNode", "TupleNode", "ShadowMRO"]
 
 
 def check_deep(case, acc):
@@ -198,7 +199,7 @@ def random_cases(draw):
     shape = draw(strategies.tree_shapes(max_nodes=60, min_nodes=4))
     size = shapes.shape_size(forest.to_tuple(shape))
     start = draw(st.one_of(st.just(0), st.integers(0, size - 1)))
-    cls = draw(st.sampled_from(nodes.TREE_CLASSES))
+    cls = draw(st.sampled_from(nodes.TREE_CLASSES + ["ShadowMRO"]))
     via = draw(st.sampled_from(["parent", "children"]))
     portions = draw(st.lists(st.tuples(st.sampled_from(CONSUME_MODES), st.integers(0, 12)).map(list), min_size=1, max_size=3))
     return {"shape": shape, "start": start, "cls": cls, "via": via, "mutations": draw(strategies.tree_mutations()), "portions": portions}
